@@ -216,6 +216,7 @@ def xml_abs(el):
 
 class Meta:
     def __init__(self, table):
+        self.table = table
         self.cls = {}
         for row in table:
             cname, attrs = row
@@ -334,12 +335,69 @@ def align(read, orig):
 
 # ------------------------------------------------------------------ SDK drivers and the oracle
 
+# Process history: the strict full read that the property is about must give the same result whatever was read before
+# in the same process.  In the main process the very first XML read, and every third one after it, is preceded by a
+# stripped read (strict / failsafe alternating) of the same document; a short "plain" history (no stripped read at
+# all) runs in a child process (plain_history()).
+HISTORY = {"mode": "stripped-first", "n": 0, "stripped_reads": 0, "stripped_read_errors": 0}
+
+
+def _history_prelude(raw, member=None):
+    n = HISTORY["n"]
+    HISTORY["n"] = n + 1
+    if HISTORY["mode"] != "stripped-first" or n % 3:
+        return
+    from basyx.aas.adapter.xml import read_aas_xml_file, read_aas_xml_element, XMLConstructables
+    failsafe = bool((n // 3) % 2)
+    HISTORY["stripped_reads"] += 1
+    try:
+        if member is None:
+            read_aas_xml_file(io.BytesIO(raw), failsafe=failsafe, stripped=True)
+        else:
+            read_aas_xml_element(io.BytesIO(raw), getattr(XMLConstructables, member), failsafe=failsafe, stripped=True)
+    except Exception:           # what a stripped read yields is property C18's business
+        HISTORY["stripped_read_errors"] += 1
+
+
+def history_warmup(meta, seed, members_of):
+    """Before the first strict full read of the process: stripped reads (strict and failsafe) of one object of every
+    class through every matching single-object constructable (incl. the dispatching ones) and of one store."""
+    if HISTORY["mode"] != "stripped-first":
+        return
+    from lxml import etree
+    from basyx.aas.adapter.xml import read_aas_xml_element, read_aas_xml_file, write_aas_xml_file, XMLConstructables
+    from basyx.aas.adapter.xml.xml_serialization import object_to_xml_element
+    for i, cls in enumerate(SINGLE_GEN):
+        cname, obj = gen_single_case(meta, seed, 2 * 10 ** 6 + i, 2, {}, cls=cls)
+        try:
+            raw = etree.tostring(object_to_xml_element(obj), encoding="UTF-8", xml_declaration=True)
+        except Exception:
+            continue
+        for m in members_of.get(cname, []):
+            for failsafe in (False, True):
+                HISTORY["stripped_reads"] += 1
+                try:
+                    read_aas_xml_element(io.BytesIO(raw), getattr(XMLConstructables, m), failsafe=failsafe, stripped=True)
+                except Exception:
+                    HISTORY["stripped_read_errors"] += 1
+    st, _ = gen_store_case(meta, seed, 2 * 10 ** 6, 3, 3, {})
+    b = io.BytesIO()
+    write_aas_xml_file(b, st)
+    for failsafe in (False, True):
+        HISTORY["stripped_reads"] += 1
+        try:
+            read_aas_xml_file(io.BytesIO(b.getvalue()), failsafe=failsafe, stripped=True)
+        except Exception:
+            HISTORY["stripped_read_errors"] += 1
+
+
 def write_read_store(store):
     from basyx.aas.adapter.xml import write_aas_xml_file, read_aas_xml_file
     b = io.BytesIO()
     write_aas_xml_file(b, store)
-    b.seek(0)
-    return b.getvalue(), read_aas_xml_file(b, failsafe=False)
+    raw = b.getvalue()
+    _history_prelude(raw)
+    return raw, read_aas_xml_file(io.BytesIO(raw), failsafe=False)
 
 
 def strip_type(c):
@@ -432,6 +490,7 @@ def single_roundtrip(obj, member):
     el = object_to_xml_element(obj)
     # the single-object reader needs the namespace declaration on the element itself
     raw = etree.tostring(el, encoding="UTF-8", xml_declaration=True)
+    _history_prelude(raw, member)
     return el, read_aas_xml_element(io.BytesIO(raw), getattr(XMLConstructables, member), failsafe=False)
 
 
@@ -448,6 +507,7 @@ def oracle_single(obj, member, twin=None):
             from basyx.aas.adapter.xml.xml_serialization import object_to_xml_element
             els = [object_to_xml_element(obj), object_to_xml_element(twin)]
             raws = [etree.tostring(e, encoding="UTF-8", xml_declaration=True) for e in els]
+            _history_prelude(raws[0], member)
             backs = [read_aas_xml_element(io.BytesIO(r), getattr(XMLConstructables, member), failsafe=False)
                      for r in raws]
             pairs = [(obj, backs[0]), (twin, backs[1])]
@@ -648,6 +708,7 @@ def run(chk):
     for m, t in striples:
         fn, c, ctor = flat_tuple(t)
         members_of.setdefault(c, []).append(m)
+    history_warmup(meta, chk.seed, members_of)
     chk.cov["single_object_api"] = {"supported_pairs": len(striples),
                                     "constructables_without_writer_support": unsupported}
     failures = [(tuple(flat_tuple(e)[:3]), flat_tuple(e)[3]) for e in failures]
@@ -723,6 +784,8 @@ def run(chk):
     reference_stress(chk)
     # ---- long / extreme typed values in every value position
     value_stress(chk)
+    blob_stress(chk)
+    plain_history(chk, meta.table, seed, 12 if quick else 120)
     # ---- XML lexical stress through a Property / MultiLanguageProperty / File / Blob in one submodel
     lex_fail = lexical_stress(chk)
 
@@ -823,6 +886,8 @@ def run(chk):
     chk.traces = total
     chk.samples = [{"kind": "single", "i": i, "class": c} for i, c in index[:4]] + \
                   [{"kind": "store", "i": 0, "ids": [o.id for o in gen_store_case(meta, seed, 0, 3, 3, {})[0]]}]
+    chk.count("history:stripped_reads_before_strict_reads", HISTORY["stripped_reads"])
+    chk.count("history:stripped_reads_raising", HISTORY["stripped_read_errors"])
     chk.trusted = [
         "Coq 8.16.1 kernel (coqc; vm_compute for compat over the whole generated tables, the Example and the correspondence)",
         "tools/py2coq/xmlrules.py (fail-closed ast translator; helper functions pinned by AST fingerprint) and the "
@@ -962,6 +1027,23 @@ def value_pool():
              (D.UnsignedLong, D.UnsignedLong(2 ** 64 - 1)), (D.Long, D.Long(-2 ** 63))]
     pool += [(D.Double, x) for x in (1.7976931348623157e308, 5e-324, 0.1 + 0.2, -2.2250738585072014e-308, 1e22, 123456789.12345679)]
     pool += [(D.Float, D.Float(x)) for x in (3.4028234663852886e38, 1.401298464324817e-45, 16777217.0, 0.30000001192092896)]
+    # xs:duration: every field alone, every field together with a fractional second, some full combinations - each
+    # with both signs (the sign belongs to the duration as a whole)
+    fields = ["years", "months", "days", "hours", "minutes", "seconds", "microseconds"]
+    combos = [{f: 3} for f in fields[:-1]] + [{"microseconds": 500000}, {"microseconds": 1}, {"microseconds": 999999}]
+    combos += [{f: 2, "microseconds": 500000} for f in fields[:-1]]
+    combos += [{"seconds": 1, "microseconds": 500000}, {"minutes": 1, "seconds": 1, "microseconds": 250000},
+               {"years": 1, "months": 2, "days": 3, "hours": 4, "minutes": 5, "seconds": 6, "microseconds": 700000},
+               {"years": 1, "seconds": 59, "microseconds": 999999}, {"days": 1, "microseconds": 1},
+               {"hours": 23, "minutes": 59, "seconds": 59, "microseconds": 999999}, {"months": 11, "days": 30}]
+    for c in combos:
+        for sign in (1, -1):
+            pool.append((D.Duration, D.Duration(**{k: sign * v for k, v in c.items()})))
+    import datetime
+    tz = datetime.timezone(datetime.timedelta(hours=-11, minutes=-30))
+    pool += [(D.DateTime, x) for x in (datetime.datetime(1, 1, 1, 0, 0, 0, 1), datetime.datetime(9999, 12, 31, 23, 59, 59, 999999),
+                                       datetime.datetime(2024, 2, 29, 12, 0, 0, 500000, tzinfo=tz),
+                                       datetime.datetime(2000, 1, 1, tzinfo=datetime.timezone.utc))]
     # every string-like XSD type the SDK offers (xs:string, xs:anyURI, xs:normalizedString, ...) crossed with the whole
     # XML lexical stress list; values a type's constructor refuses are no members of its value space and are skipped
     for t in D.XSD_TYPE_NAMES:
@@ -988,15 +1070,85 @@ def value_stress(chk, only=None):
                      model.Range("r", t, min=v, max=v),
                      # the same values a second time in the same document
                      model.SubmodelElementCollection("c", value=[model.Property("p", t, v), model.Range("r", t, max=v)])]
+            if t in (model.datatypes.Duration, model.datatypes.DateTime):
+                # the two attributes of fixed XSD type: BasicEventElement.min_interval / max_interval, last_update
+                obs = model.ModelReference((model.Key(model.KeyTypes.SUBMODEL, "urn:values:sm"),), model.Submodel)
+                kw = dict(min_interval=v, max_interval=v) if t is model.datatypes.Duration else dict(last_update=v)
+                try:
+                    for name in ("ev", "ev2"):
+                        elems.append(model.BasicEventElement(name, obs, model.Direction.OUTPUT, model.StateOfEvent.OFF,
+                                                             **kw))
+                    chk.count("value_stress_via_basic_event_element")
+                except ValueError:      # e.g. last_update must be UTC: the value stays in the other positions
+                    elems = [e for e in elems if not isinstance(e, model.BasicEventElement)]
             st = model.DictObjectStore([model.Submodel("urn:values:sm", submodel_element=elems,
                                                        qualifier=[model.Qualifier("q", t, v)])])
         except Exception as e:
-            chk.count("value_stress_rejected_by_sdk:" + type(e).__name__)
+            chk.count("value_stress_rejected_by_sdk:" + type(e).__name__ + ":" + str(e)[:60])
             continue
         bad = oracle_store(st)
         if bad:
             chk.fail(bad[0].replace("C04:store", "C04:values"), f"{t.__name__} {v!r}: {bad[1]}",
                      {"kind": "values", "k": k, "type": t.__name__, "value": repr(v), "diff": bad[1]})
+
+
+BLOB_SIZES = [0, 1, 2, 3, 57, 65535, 65536, 65537, 98304, 131072, 200000]
+
+
+def blob_stress(chk, only=None):
+    """Blob values around every power-of-two buffer size up to 200 000 bytes (store and single-object API)"""
+    from basyx.aas import model
+    for k, n in enumerate(BLOB_SIZES):
+        if only is not None and k != only:
+            continue
+        data = bytes((i * 31 + (i >> 8) * 7) % 256 for i in range(n))
+        chk.seen(("blob", n), nontrivial=True)
+        chk.count("blob_stress")
+        mk = lambda: model.Blob("b", "application/octet-stream", value=data)
+        st = model.DictObjectStore([model.Submodel("urn:blob:sm", submodel_element=[
+            mk(), model.SubmodelElementCollection("c", value=[mk()])])])
+        bad = oracle_store(st)
+        if not bad:
+            for m in ("BLOB", "DATA_ELEMENT", "SUBMODEL_ELEMENT"):
+                bad = oracle_single(mk(), m, mk())
+                if bad:
+                    break
+        if bad:
+            chk.fail(re.sub(r"^C04:(store|single)", "C04:blob", bad[0]), f"Blob value of {n} bytes: {bad[1][:200]}",
+                     {"kind": "blob", "k": k, "size": n})
+
+
+def plain_history(chk, meta_table, seed, n):
+    """the same store oracle in a fresh process that never performs a stripped read"""
+    import subprocess
+    import sys
+    os.makedirs(common.BUILD, exist_ok=True)
+    mpath = os.path.join(common.BUILD, "c04_meta.json")
+    with open(mpath, "w") as fh:
+        json.dump(meta_table, fh)
+    p = subprocess.run([sys.executable, os.path.abspath(__file__), "--plain-history", mpath, str(seed), str(n)],
+                       stdout=subprocess.PIPE, stderr=subprocess.PIPE, text=True, timeout=600)
+    try:
+        res = json.loads(p.stdout.strip().splitlines()[-1])
+    except Exception:
+        chk.tie_broken("plain-history-run", (p.stdout + p.stderr)[-800:])
+        return
+    chk.count("plain_history_stores", res["n"])
+    for sig, what, i in res["failures"]:
+        chk.fail(sig, what, {"kind": "store", "i": i, "only_id": None, "history": "plain", "diff": what})
+
+
+def _plain_history_main(argv):
+    mpath, seed, n = argv[0], int(argv[1]), int(argv[2])
+    HISTORY["mode"] = "plain"
+    meta = Meta(json.load(open(mpath)))
+    fails = []
+    for i in range(n):
+        st, _ = gen_store_case(meta, seed, i, 3, 3, {}, twins=True)
+        bad = oracle_store(st)
+        if bad:
+            fails.append([bad[0], bad[1], i])
+    print(json.dumps({"n": n, "failures": fails}))
 
 
 BOOL_TEXTS = ["true", "false", "1", "0", " true", "false ", "\n1\t", " 0 ", "\r\n true \r\n", "TRUE", "", " ", "yes",
@@ -1136,6 +1288,19 @@ def replay(path):
         print("cannot evaluate the tables:", chk.broken)
         return 1
     meta = tabs[0]
+    if rp.get("history") == "plain":
+        HISTORY["mode"] = "plain"
+    mo = {}
+    for m, t in tabs[2]:
+        mo.setdefault(flat_tuple(t)[1], []).append(m)
+    history_warmup(meta, seed, mo)
+    if rp.get("kind") == "blob":
+        c2 = common.Check("C04", "quick", seed)
+        blob_stress(c2, only=rp["k"])
+        print("oracle:", [f["what"][:300] for f in c2.failures])
+        return 1 if c2.failures else 0
+    if rp.get("history") == "plain":
+        HISTORY["mode"] = "plain"
     if rp.get("kind") == "store":
         st, _ = gen_store_case(meta, seed, rp["i"], 3, 3, {}, twins=True)
         if rp.get("only_id"):
@@ -1175,3 +1340,9 @@ def replay(path):
         return 1 if hit else 0
     print(json.dumps(r, indent=1)[:3000])
     return 1
+
+
+if __name__ == "__main__":
+    import sys
+    if len(sys.argv) > 1 and sys.argv[1] == "--plain-history":
+        _plain_history_main(sys.argv[2:])
